@@ -232,8 +232,13 @@ fn decls(c: &DocCase) -> Vec<Decl> {
     table
         .into_iter()
         .enumerate()
-        .map(|(i, e)| {
+        .map(|(i, mut e)| {
             let bits = c.tag_bits[i % c.tag_bits.len()];
+            // the table generator leaves wildcard endpoints unpublished (the macros insist on that);
+            // through ApiEndpoint::new they can be published, and then they must be documented
+            if matches!(e.segs.last(), Some(Seg::Wild(_))) && bits & 4 == 0 {
+                e.visible = true;
+            }
             let mut tags = vec![];
             if bits & 1 != 0 {
                 tags.push("alpha".to_string());
